@@ -5,11 +5,11 @@
     C <q|-> <w|-> <b|-> <z|->                  → settings after ApplyConfig (`-` = key absent)
     H <variant> <w>,<q>,<b>,<z> <op>;<op>;… [<fault>]   → <pack>;<pack>;… | <final state>
     L <variant> <w>,<q>,<b>,<z> <act>;<act>;… [<fault>] → the same for the loop machine (Golib.ZipSender.Loop),
-                                                           followed by  pc=<top|poll<n>|exited> cancelled=<0|1>
+                                                           followed by  pc=<top|poll@<deadline>|exited> cancelled=<0|1>
 
   fault    which hand-overs the client answers with an error: first | all | every:<k> | random:<pct>:<salt>
-  act      a:<rec>  d:<rec>|…  c:…  as below;  k  cancel;  t<n>  the loop's select (GetTimeout will fit 1+n polls);
-           p  one poll of GetTimeout
+  act      a:<rec>  d:<rec>|…  c:…  as below;  k  cancel;  t<now>  the loop's select (GetTimeout reads the clock: now);
+           p<now>  one round of GetTimeout (GetNoWait; empty-handed: sleep, clock reading now, deadline test)
 
   variant  fixed | found
   op       a:<rec>  Add            s  one loop iteration      x  stop
@@ -125,8 +125,8 @@ def opWeight : In DRec → Nat
 
 def parseAct (s : String) : Option (Act DRec) :=
   if s == "k" then some .cancel
-  else if s == "p" then some .poll
-  else if s.startsWith "t" then (parseNat (s.drop 1).toString).map .select
+  else if s.startsWith "p" then (parseInt (s.drop 1).toString).map .poll
+  else if s.startsWith "t" then (parseInt (s.drop 1).toString).map .select
   else match parseOp s with
     | some (.add r) => some (.add r)
     | some (.sendDirect rs) => some (.sendDirect rs)
@@ -137,7 +137,7 @@ def actWeight : Act DRec → Nat
   | .sendDirect rs => rs.length + 2 | _ => 2
 
 def showPC : PC → String
-  | .top => "top" | .polling n => s!"poll{n}" | .exited => "exited"
+  | .top => "top" | .polling n => s!"poll@{n}" | .exited => "exited"
 
 def answerH (v st ops fault : String) : String :=
   match parseVariant v, parseSettings st, (if ops == "-" then some [] else (ops.splitOn ";").mapM parseOp) with
